@@ -693,16 +693,14 @@ func rulePNIndex(p *Prog, r *Reporter) {
 	if n == 0 {
 		r.Note("no lossy conversion feeds an index under this configuration")
 	}
-	// instance floor: the two symbol lookups must exist
-	for _, m := range []string{"Str", "Var"} {
-		f := p.Func("datalog", "SymbolTable", m)
-		if f == nil {
-			r.Dunno("?", "datalog.SymbolTable."+m, "lookup", "method not found")
+	// symbol-table lookups: every non-constant index into the table / the default symbols is proved in range
+	st := p.NamedType("datalog", "SymbolTable")
+	nIdx := 0
+	for _, f := range p.funcsIn("datalog") {
+		if f.Signature.Recv() == nil || st == nil || !types.Identical(deref(f.Signature.Recv().Type()), st) {
 			continue
 		}
-		// every index into the receiver or DEFAULT_SYMBOLS must use a value that was bounded
-		okAll := true
-		why := ""
+		rls := rangeLoops(f)
 		for _, b := range f.Blocks {
 			for _, in := range b.Instrs {
 				ia, ok := in.(*ssa.IndexAddr)
@@ -712,20 +710,115 @@ func rulePNIndex(p *Prog, r *Reporter) {
 				if _, isConst := constInt(ia.Index); isConst {
 					continue
 				}
-				src := indexSource(ia.Index)
-				if src == nil || !boundedBefore(p, b, src) {
-					okAll = false
-					why = "index " + shortD(ia.Index) + " at " + p.instrPos(ia) + " is not dominated by an upper-bound test of its source value"
+				isRange := false
+				for _, rl := range rls {
+					if ia.Index == ssa.Value(rl.incr) && ia.X == rl.seq {
+						isRange = true
+					}
+				}
+				if isRange {
 					continue
 				}
-				if _, signed, isInt := intWidth(p, src.Type()); isInt && signed && !lowerBounded(p, b, src) {
-					okAll = false
-					why = "signed index " + shortD(ia.Index) + " at " + p.instrPos(ia) + " has no dominating lower bound (may be negative)"
-				}
+				nIdx++
+				ok2, why := indexInRange(p, b, ia)
+				r.Check(ok2, p.instrPos(ia), p.FuncName(f), "index "+normaliseD(shortD(ia.Index))+" into "+normaliseD(shortD(ia.X)), "dominated by a strict upper bound against the length of the indexed sequence (and a lower bound if signed)", why)
 			}
 		}
-		r.Check(okAll, p.Pos(f.Pos()), p.FuncName(f), "symbol index bounds", "every table index is dominated by an upper-bound test on its unconverted source", why)
 	}
+	if nIdx < 4 {
+		r.Dunno("datalog/symbol.go", "datalog.SymbolTable", "symbol lookups", fmt.Sprintf("only %d computed table indexes found in SymbolTable methods (expected the Str/Var lookups)", nIdx))
+	}
+}
+
+func stripAllConv(v ssa.Value) ssa.Value {
+	for {
+		switch x := v.(type) {
+		case *ssa.Convert:
+			v = x.X
+		case *ssa.ChangeType:
+			v = x.X
+		default:
+			return v
+		}
+	}
+}
+
+// indexInRange: a dominating guard proves index < len(sequence) (strictly), plus >= 0 for signed sources.
+func indexInRange(p *Prog, blk *ssa.BasicBlock, ia *ssa.IndexAddr) (bool, string) {
+	src := stripAllConv(ia.Index)
+	srcD := p.D(src)
+	var constLen int64 = -1
+	lenD := ""
+	if arr, ok := deref(ia.X.Type()).Underlying().(*types.Array); ok {
+		constLen = arr.Len()
+	} else {
+		lenD = "len(" + p.D(ia.X) + ")"
+	}
+	upper := false
+	for _, g := range guardsOf(blk) {
+		bo, ok := g.cond.(*ssa.BinOp)
+		if !ok {
+			continue
+		}
+		op := bo.Op
+		if !g.val {
+			switch op {
+			case token.LSS:
+				op = token.GEQ
+			case token.LEQ:
+				op = token.GTR
+			case token.GTR:
+				op = token.LEQ
+			case token.GEQ:
+				op = token.LSS
+			default:
+				continue
+			}
+		}
+		l, rr := stripAllConv(bo.X), stripAllConv(bo.Y)
+		// normalise to: idx OP bound
+		if p.D(rr) == srcD {
+			l, rr = rr, l
+			switch op {
+			case token.LSS:
+				op = token.GTR
+			case token.LEQ:
+				op = token.GEQ
+			case token.GTR:
+				op = token.LSS
+			case token.GEQ:
+				op = token.LEQ
+			}
+		}
+		if p.D(l) != srcD {
+			continue
+		}
+		switch op {
+		case token.LSS:
+			if lenD != "" && p.D(rr) == lenD {
+				upper = true
+			}
+			if k, isC := constInt(rr); isC && constLen >= 0 && k <= constLen {
+				upper = true
+			}
+		case token.LEQ:
+			if sub, isB := rr.(*ssa.BinOp); isB && sub.Op == token.SUB {
+				if k, isC := constInt(sub.Y); isC && k >= 1 && lenD != "" && p.D(stripAllConv(sub.X)) == lenD {
+					upper = true
+				}
+			}
+			if k, isC := constInt(rr); isC && constLen >= 0 && k <= constLen-1 {
+				upper = true
+			}
+		}
+	}
+	if !upper {
+		return false, "index " + shortD(ia.Index) + " is not dominated by a strict upper bound against the length of " + shortD(ia.X) + " (off-by-one or missing bound: a crafted symbol id panics with index out of range)"
+	}
+	if _, signed, isInt := intWidth(p, src.Type()); isInt && signed && !lowerBounded(p, blk, src) {
+		return false, "signed index " + shortD(ia.Index) + " has no dominating lower bound (may be negative)"
+	}
+	return true, ""
 }
 
 // indexSource strips conversions from an index expression to the value that must be bounded.
